@@ -4,6 +4,7 @@
    from which Get may hand out ANY pooled object (the `choice` of every step is universally quantified). *)
 From Coq Require Import List NArith ZArith Bool.
 From BE Require Import Model.GoTypes Model.GoVal Model.Parsers Model.Index Model.Pool Proofs.PoolProof.
+From BE Require Model.Roaring Model.RoaringPool Proofs.RoaringPoolProof.
 Import ListNotations.
 
 (* any history over any indexes (successful and failing retrievals alike), any pool behaviour:
@@ -26,5 +27,54 @@ Example C10_put_without_reset_leaks :
   run_history false [(ix1, [(0%N, VInt KI 1)], 0%nat); (ix1, [(0%N, VInt KI 2)], 0%nat)] [] = [ROk [7%Z]; ROk [7%Z]].
 Proof. vm_compute. split; reflexivity. Qed.
 
+(* THE ROARING INDEX (Model/RoaringPool.v: the scanner of Model/Roaring.v WITH the process-wide bitmap pool: a scanner's
+   result bitmap and every retrieval's scratch posting list come from the pool -- whatever object Get hands out, the
+   choice universally quantified --, each container ORs its wildcard/include lists into the scratch before parsing
+   the assigned value, the scanner merges and clears it per field, and releases it; the error path follows the
+   policy (put, clr): (false, _) = the code as it is (the scratch is dropped), (true, true) = released cleared).
+   For ANY history of operations (new scanner, Reset, WithHint, Retrieve, RetrieveDocs, GetRawResult, other
+   allocations) over any number of scanners, successful and failing alike, under any sequence of Get choices and any
+   per-retrieval field order: every scanner's answers are those of the pure scanner model run on that scanner's own
+   operations, and every pooled bitmap stays empty. *)
+Theorem C10_roaring_history_independent : forall put clr (h : list (nat * RoaringPool.rpop * nat)) i,
+  RoaringPoolProof.policy_ok put clr -> RoaringPoolProof.hist_wf h ->
+  RoaringPool.answers_of i h (fst (RoaringPool.pool_run put clr h RoaringPool.st_init)) =
+    fst (RoaringPool.sc_run None (RoaringPool.ops_of i h)) /\
+  pool_inv (RoaringPool.st_pool (snd (RoaringPool.pool_run put clr h RoaringPool.st_init))).
+Proof. exact RoaringPoolProof.roaring_pool_pure_init. Qed.
+
+(* a scanner that was Reset answers like a fresh one whatever happened before on any scanner ... *)
+Theorem C10_roaring_reset_then_retrieve_is_fresh : forall put clr h0 i ps c1 c2 ch2 ord q,
+  RoaringPoolProof.policy_ok put clr -> RoaringPoolProof.hist_wf h0 ->
+  alookup Nat.eqb i (RoaringPool.st_scs (snd (RoaringPool.pool_run put clr h0 RoaringPool.st_init))) = Some ps ->
+  fst (RoaringPool.pool_run put clr [(i, RoaringPool.OReset, c1); (i, RoaringPool.ORetrieve ord q ch2, c2)]
+         (snd (RoaringPool.pool_run put clr h0 RoaringPool.st_init))) =
+  [RoaringPool.AUnit;
+   RoaringPoolProof.retrieve_answer (Roaring.sc_retrieve (RoaringPool.pick ord (RoaringPool.ps_conts ps)) q Roaring.fresh_scanner)].
+Proof. exact RoaringPoolProof.reset_retrieve_pure. Qed.
+
+(* ... also when bitmap identities are modelled (the scratch, the document bitmap and a scanner's result bitmap may be the
+   same pooled object): pure for the code as it is ([]) and for "released once on the error path" ([true]) *)
+Theorem C10_roaring_history_independent_with_identities : forall ep (h : list (nat * RoaringPool.rpop * nat)) i,
+  RoaringPoolProof.herr_ok ep -> RoaringPoolProof.hist_wf h ->
+  RoaringPool.answers_of i h (fst (RoaringPool.heap_run ep h RoaringPool.hst_init)) =
+    fst (RoaringPool.sc_run None (RoaringPool.ops_of i h)) /\
+  RoaringPoolProof.hst_inv (snd (RoaringPool.heap_run ep h RoaringPool.hst_init)).
+Proof. exact RoaringPoolProof.heap_run_pure_init. Qed.
+
+(* necessity, by computation: returning the scratch UNCLEARED on the error path makes another scanner report a spurious
+   conjunction; releasing it TWICE makes two later users share one bitmap and lose a document *)
+Example C10_roaring_uncleared_scratch_leaks :
+  exists a b c d e f g, fst (RoaringPool.pool_run true false RoaringPoolProof.ex_hist RoaringPool.st_init) =
+    [a; b; RoaringPool.AFail PErr; RoaringPool.ADocs [1; 2]%N; c; d; e; f; g].
+Proof. do 7 eexists. exact RoaringPoolProof.ex_mutant_uncleared. Qed.
+Example C10_roaring_double_release_loses_a_document :
+  fst (RoaringPool.heap_run [true; true] RoaringPoolProof.ex_hist2 RoaringPool.hst_init) =
+  [RoaringPool.AUnit; RoaringPool.AFail PErr; RoaringPool.AUnit; RoaringPool.ADocs []; RoaringPool.ARaw []].
+Proof. exact RoaringPoolProof.exh_mutant_double_release. Qed.
+
 Print Assumptions C10_history_independent.
 Print Assumptions C10_pool_invariant_preserved.
+Print Assumptions C10_roaring_history_independent.
+Print Assumptions C10_roaring_reset_then_retrieve_is_fresh.
+Print Assumptions C10_roaring_history_independent_with_identities.
